@@ -363,14 +363,17 @@ pub fn finish(
     }
     let mut violations = 0;
     let _ = std::fs::create_dir_all(format!("{}/replays", verif_dir()));
+    // VERIF_CALIBRATE=1 (development aid): write and minimise a replay for every new signature
+    let calibrate = std::env::var("VERIF_CALIBRATE").is_ok();
+    let (cap, min_cap) = if calibrate { (400, 400) } else { (8, 4) };
     for (n, (sig, (count, f))) in new_seen.iter().enumerate() {
         violations += 1;
-        if n >= 8 {
+        if n >= cap {
             println!("(further distinct violation signature suppressed: {sig} x{count})");
             continue;
         }
         let f2 = match minimise {
-            Some(m) if n < 4 => m(f),
+            Some(m) if n < min_cap => m(f),
             _ => f.clone(),
         };
         let path = format!(
